@@ -141,6 +141,12 @@ impl Vm {
             // Update the gas spent.
             gas_spent = next_spent;
 
+            // Compute programs may only spend what remains of the total gas limit.
+            let remaining_gas = GasLimit {
+                total: gas_limit.total - gas_spent,
+                ..gas_limit
+            };
+
             // Execute the operation.
             let res = step_op(
                 access.clone(),
@@ -149,7 +155,7 @@ impl Vm {
                 state_reads,
                 op_access.clone(),
                 op_gas_cost,
-                gas_limit,
+                remaining_gas,
             );
 
             #[cfg(feature = "tracing")]
@@ -177,9 +183,9 @@ impl Vm {
                     self.pc += 1;
                     break;
                 }
-                // TODO: compute gas_spent is not inferrable above
                 Some(ProgramControlFlow::ComputeResult((pc, gas, halt))) => {
-                    gas_spent += gas;
+                    // `gas` was checked against the remaining limit by the compute op.
+                    gas_spent = gas_spent.saturating_add(gas);
                     self.pc = pc;
                     self.halt |= halt;
                     if self.halt {
